@@ -170,7 +170,10 @@ Exec(t, o) ==
                  \* C17: errors the semantics demand are raised ...
                  !.c17_demand  = /\ serr => (~o.ok /\ o.recorded)
                                  /\ (badj /\ ~cfg.permissive) => anyRecorded
-                                 /\ (badj /\ IsJumpAt(off)) => ~o.ok,
+                                 /\ (badj /\ IsJumpAt(off)) => ~o.ok
+                                 \* ... and an instruction that succeeds leaves the stack as deep as the EVM's table says
+                                 \* (or the next under- or overflow is detected at the wrong place)
+                                 /\ o.ok => o.depth = p.depth - PopsAt(off) + PushesAt(off),
                  \* ... every raised error is recorded, except bad jump targets in permissive mode,
                  \* which never are
                  !.c17_policy  = /\ (~o.ok /\ ~(cfg.permissive /\ badj)) => o.recorded
